@@ -20,7 +20,7 @@ CLAIMED = {
  "C12": ("exploration",
    "runtime snapshot monitor (deep snapshot before, reflect.DeepEqual + JSON text after) around every call",
    "Inputs are snapshotted by an independent second decoding before each call and compared afterwards; covers instances, $ref-free schemas with defaults, typed slices for parameter/header validators, raw bytes and parsed specification of accepted documents.",
-   "Mutations invisible to both DeepEqual and JSON text are not seen; sampled input space.", "DESIGN.md §4 C12"),
+   "Mutations invisible to both DeepEqual and JSON text are not seen; the inputs of the last 64 recycling calls are compared again after every later case (a write through an alias kept by a pooled validator happens during a later call); instances also decoded with UseNumber; sampled input space.", "DESIGN.md §4 C12"),
  "C13": ("exploration",
    "runtime reference-model monitor (exact rational arithmetic vs helpers / parameter+header validators / AgainstSchema, every Go carrier of the same value)",
    "Each (value, carrier, constraint, entry point) tuple is executed on the real code and compared with exact arithmetic; one value is pushed through every exactly-representing carrier and must get one verdict. Deviations are attributed to a recorded finding only when its exact emulation reproduces the implementation.",
@@ -36,10 +36,10 @@ CLAIMED = {
  "C20": ("exploration",
    "runtime model-based monitor (ordered-set model stepped in lock-step with the real Result over random operation sequences, all results compared after every step)",
    "Random sequences of the public Result operations run on the real type and on an ordered-set model; every result is compared with its model after every step, so loss, duplication, reordering, count drift and aliasing through operands are caught at the step they occur.",
-   "Only the exported API on the results; pooled operands come from the verif hook VerifBorrowResult and are given back by the merge (ownership automaton and poison on); messages compared by text; sampled sequences.", "DESIGN.md §4 C20"),
+   "Only the exported API on the results; pooled operands come from the verif hook VerifBorrowResult and are given back by the merge (ownership automaton and poison on); messages compared by text (12 texts, 72 in one case in four, pooled operands with up to 40 messages judged against their own model before the merge); sampled sequences.", "DESIGN.md §4 C20"),
  "C02": ("exploration",
    "runtime reference-model monitor (raw document judged against the official Swagger 2.0 JSON schema by the independent draft-4 model, next to the real SpecValidator)",
-   "Loadable mutated specifications are validated by the real SpecValidator in both modes and through Spec(); independently the raw JSON is judged against the vendored Swagger 2.0 schema by the draft-4 model; schema-invalid but accepted is a violation unless a recorded finding's exact emulation makes the model accept too.",
+   "Loadable mutated specifications are validated by the real SpecValidator in both modes, once more with Opts.SkipSchemataResult, and through Spec(); independently the raw JSON is judged against the vendored Swagger 2.0 schema by the draft-4 model; schema-invalid but accepted is a violation unless a recorded finding's exact emulation makes the model accept too.",
    "One direction only, as stated; vendored schema checked equal to spec.MustLoadSwagger20Schema() at start; model self-checked; sampled.", "DESIGN.md §4 C02"),
  "C03": ("exploration",
    "runtime generator-as-oracle monitor (valid-by-construction specifications and single rule-breaking edits, 4 option configurations, real SpecValidator)",
@@ -56,7 +56,7 @@ CLAIMED = {
  "C10": ("exploration",
    "runtime self-differential monitor across repetitions, fresh processes (new map seeds), continue-on-errors modes and serialisations",
    "Each document is validated 4x in-process, in 3 fresh processes, in both modes and as JSON / YAML / shuffled-member JSON; outcomes (verdict, error set, warning set, cycle messages reduced to their cycle) must coincide; stop-early errors must be a subset of continue-mode errors; separate warnings == attached warnings; warnings alone never invalidate.",
-   "Map-order dependence is only visible when different orders are drawn (>=7 independent draws per document); sampled.", "DESIGN.md §4 C10"),
+   "Map-order dependence is only visible when different orders are drawn (>=7 independent draws per document); state kept beyond a validation is provoked by a twin document (same names, other content) validated first in the same process and by the same reused validator object; one recorded finding (same loaded document validated again) is attributed by input class; sampled.", "DESIGN.md §4 C10"),
  "C14": ("exploration",
    "runtime reference-model monitor (textbook definitions of the 13 exported helpers, purity and argument snapshots)",
    "Every helper is called on generated arguments, twice, with its container arguments snapshotted; the nil/error answer is compared with an independently written textbook definition.",
